@@ -10,10 +10,45 @@
 
 #include "../engine/seqx/seqx.h"
 #include "common_seq.h"
+#include <iterator>
 
 namespace {
 
 enum Op { PUB = 0, BATCH2, SUBR, SUBAT, COPY, CLOSE, AWAIT0, AWAIT1, READY0, READY1, KICK0, KICK1, LEAVE0, LEAVE1, BATCH0, NOPS };
+// input iterator whose copies share one cursor (like std::istream_iterator): the range can be walked exactly once
+struct SinglePass {
+    using iterator_category = std::input_iterator_tag;
+    using value_type = int;
+    using difference_type = std::ptrdiff_t;
+    using pointer = const int *;
+    using reference = const int &;
+    struct Src {
+        const int *p, *e;
+    };
+    Src *src = nullptr;
+    int cur = 0;
+    SinglePass() = default;
+    explicit SinglePass(Src *s) : src(s) { read(); }
+    void read() {
+        if (src && src->p != src->e)
+            cur = *src->p++;
+        else
+            src = nullptr;
+    }
+    reference operator*() const { return cur; }
+    SinglePass &operator++() {
+        read();
+        return *this;
+    }
+    SinglePass operator++(int) {
+        SinglePass t = *this;
+        read();
+        return t;
+    }
+    bool operator==(const SinglePass &o) const { return src == o.src; }
+    bool operator!=(const SinglePass &o) const { return src != o.src; }
+};
+
 static const char *op_names[] = {"pub", "batch2", "sub_recent", "sub_at", "copy0", "close", "await0", "await1", "ready0", "ready1", "kick0", "kick1", "leave0", "leave1", "batch0"};
 static const char *mode_names[] = {"all_values", "skip_if_behind", "skip_to_recent"};
 constexpr long UNLIM = 1000000;
@@ -227,7 +262,12 @@ static void run_case(seqx::Runner &R, const Cfg &cfg, const std::vector<int> &se
                 case BATCH2: {
                     int vals[2] = {(int)n + 1, (int)n + 2};
                     n += 2;
-                    pub->publish(&vals[0], &vals[2]);
+                    if (vals[0] % 2 == 0) {
+                        // every other batch comes as a single-pass range (what std::istream_iterator or a generator's iterator is)
+                        SinglePass::Src src{&vals[0], &vals[2]};
+                        pub->publish(SinglePass(&src), SinglePass());
+                    } else
+                        pub->publish(&vals[0], &vals[2]);
                     check_woken("publish batch", -1);
                     break;
                 }
